@@ -10,7 +10,9 @@ Statements (written by the verification team; the components have no listed prop
      one only after an answered probe, the second only after an unanswered first), every frame a well-formed echo request to the
      client with pairwise distinct identifiers; none of its identifiers has a registered waiter after it returned.
  (b) arp_spoofer.Handler.WhoIs(ip): (addr, nil) => addr is the binding of ip in the session's host table (latest learned MAC);
-     ErrNotFound => three broadcast requests for ip were written and nothing that binds ip was parsed before WhoIs returned;
+     ErrNotFound => three broadcast requests for ip were written and nothing that binds ip was parsed before WhoIs returned
+     (contradicted before /repo 27a6daa, finding X05:WhoIsLastAnswerIgnored, now fixed: the constant LastLook of the specification
+     follows the status of that entry, and a tree without the repair is reported with that key again);
      every frame is the broadcast request "who has ip, tell <NIC>"; none when ip is already known.
      arp_spoofer.Handler.Scan(): without Close and write errors every address of the home LAN except network, broadcast, router
      and own receives exactly one request, in ascending order; nothing is written after Close returned; nil unless a non-temporary
@@ -39,10 +41,15 @@ def rc_cfg(maxev):
     return "SPECIFICATION Spec\nCONSTANTS MaxEv = %d\nINVARIANTS %s\nCHECK_DEADLOCK FALSE\n" % (maxev, RC_INV)
 
 
+def last_look():
+    """ArpQuery's constant LastLook follows known finding X05:WhoIsLastAnswerIgnored (fixed by /repo 27a6daa)."""
+    return xc.finding_fixed("X05:WhoIsLastAnswerIgnored")
+
+
 def aq_cfg(part, maxev=1, bits="{28}", faults=0):
-    inv = "W1 W2a W3 W2bOnlyLastRound WExport" if part == "whois" else "S1 S1b S3 SExport"
-    return ("SPECIFICATION Spec\nCONSTANTS\n Part = \"%s\"\n MaxEv = %d\n Bits = %s\n MaxFaults = %d\nINVARIANTS %s\nCHECK_DEADLOCK FALSE\n" %
-            (part, maxev, bits, faults, inv))
+    inv = "W1 W2a W2bIfLastLook W3 W2bOnlyLastRound WExport" if part == "whois" else "S1 S1b S3 SExport"
+    return ("SPECIFICATION Spec\nCONSTANTS\n LastLook = %s\n Part = \"%s\"\n MaxEv = %d\n Bits = %s\n MaxFaults = %d\nINVARIANTS %s\nCHECK_DEADLOCK FALSE\n" %
+            ("TRUE" if last_look() else "FALSE", part, maxev, bits, faults, inv))
 
 
 # ---------------------------------------------------------------------------------------------------------------- (a)
@@ -162,6 +169,10 @@ def wi_judge(b, r, drift):
     ctxt = "WhoIs, %s" % wi_calls(b)
     if r["res"] == "panic":
         return "X05:whois:panic", "%s panicked: %s" % (ctxt, r.get("panic"))
+    at_last_look = b["res"]["r"] == "nil" and len(b["plan"]) == 3       # repaired mechanism: found by the look after the third wait
+    if at_last_look and r["res"] == "notfound" and r["table_after"] != "absent":
+        return "X05:WhoIsLastAnswerIgnored", ("%s returned ErrNotFound although the host table binds the address to %s since before it returned "
+                                              "(no look at the table after the third request: the repair of /repo 27a6daa is missing)" % (ctxt, r["table_after"]))
     if b["kf"]:
         # (W2): the answer that arrived after the third request binds ip before WhoIs returns
         if r["res"] == "notfound" and r["table_after"] != "absent":
@@ -228,7 +239,8 @@ def part_whois(ctx, binary, judge, cov):
     if pre > len(behs) // 20:
         raise vlib.InfraError("WhoIs: the initial table state could not be established for %d of %d behaviours" % (pre, len(behs)))
     cov["whois"] = {"behaviours": len(behs), "compared": compared, "precondition_failed": pre, "sessions": summ["sessions"],
-                    "behaviours_at_site_KfLastAnswerIgnored": kf,
+                    "behaviours_at_site_KfLastAnswerIgnored": kf, "last_look_modelled": last_look(),
+                    "behaviours_answered_by_the_last_look": sum(1 for b in behs if b["res"]["r"] == "nil" and len(b["plan"]) == 3),
                     "observed_sites": {"ObsOfflineEntryAnswers": sum(1 for b in behs if b.get("obs"))}}
     return r.distinct, r.generated, behs
 
